@@ -245,7 +245,58 @@ def rule_r5(ctx):
     rep.floor('uses of the input tuple', uses, 15)
 
 
+def rule_io(ctx):
+    """IntersperseDataset: the merge order is a *total* order: ties of the relative position are broken by part
+    index and then by example index (sorted() over (position, part, index) tuples, np.lexsort with those keys,
+    or a stable argsort over a part-major layout). An unstable single-key sort leaves ties to the sort kernel."""
+    rep = ctx.report
+    cls = ctx.repo.cls('core.IntersperseDataset')
+    init = cls.own('__init__')
+    if init is None:
+        raise AnalysisError('anchor vanished: IntersperseDataset.__init__')
+    fn = init.node
+    writer = [n for n in A.walk_local(fn) if isinstance(n, ast.Assign) and any(A.is_self_attr(t, 'order') for t in n.targets)]
+    if not writer:
+        raise AnalysisError('anchor vanished: IntersperseDataset.order is not written in __init__')
+    sorts = []
+    for n in A.walk_local(fn):
+        if isinstance(n, ast.Call):
+            d = (A.dotted(n.func) or '')
+            last = d.split('.')[-1]
+            if last in ('sorted', 'sort', 'argsort', 'lexsort', 'argpartition', 'partition'):
+                sorts.append((last, n))
+    if not sorts:
+        raise AnalysisError('undecidable shape: IntersperseDataset.__init__ does not sort the interleaving order')
+    for last, n in sorts:
+        if last in ('sorted', 'sort'):
+            arg = flow.copy_prop(n.args[0], fn) if n.args else (n.func.value if isinstance(n.func, ast.Attribute) else None)
+            comp = [x for x in ast.walk(arg)] if arg is not None else []
+            tup = [x for x in comp if isinstance(x, (ast.ListComp, ast.GeneratorExp)) and isinstance(x.elt, ast.Tuple)
+                   and len(x.elt.elts) >= 3]
+            keyed = any(kw.arg == 'key' for kw in n.keywords)
+            ok = bool(tup) and not keyed
+            rep.ob('IO', K.key(cls, '__init__', 'merge-order-is-a-total-order(sorted tuples)'), ok, n,
+                   'sorted() over (position, part, index) tuples: ties broken by part, then index' if ok else
+                   'the interleaving order is sorted %s: examples with equal relative position are no longer ordered by '
+                   'part and index' % ('with a key function' if keyed else 'without the (position, part, index) tuples'))
+        elif last == 'lexsort':
+            ok = n.args and isinstance(n.args[0], (ast.Tuple, ast.List)) and len(n.args[0].elts) >= 3
+            rep.ob('IO', K.key(cls, '__init__', 'merge-order-is-a-total-order(lexsort)'), bool(ok), n,
+                   '' if ok else 'np.lexsort needs the keys (index, part, position)')
+        elif last == 'argsort':
+            kinds = [kw.value for kw in n.keywords if kw.arg == 'kind']
+            stable = bool(kinds) and isinstance(kinds[0], ast.Constant) and kinds[0].value in ('stable', 'mergesort')
+            rep.ob('IO', K.key(cls, '__init__', 'merge-order-is-a-total-order(stable argsort)'), stable, n,
+                   '' if stable else 'np.argsort over the relative position only, with the default (unstable) kind: '
+                   'examples whose positions tie (inputs whose lengths share a factor) come out in an order chosen by the '
+                   'sort kernel, not "earlier dataset first"')
+        else:
+            rep.ob('IO', K.key(cls, '__init__', 'merge-order-is-a-total-order'), False, n,
+                   '%s does not produce a total order of the interleaving positions' % last)
+
+
 def run(ctx):
+    rule_io(ctx)
     rule_r1(ctx)
     rule_r2(ctx)
     rule_r3(ctx)
